@@ -388,6 +388,9 @@ package transport
 //@   ensures ote.res == old(ote.res) - 1
 //@   ensures atunlock(ote.reservedQuery) == atlock(ote.reservedQuery) - 1 && atunlock(ote.reservedQuery) >= 0
 //@   ensures calls(wgDone) == 1
+// the wait-group count is handed back BEFORE the lock is taken: ReserveNewQuery waits for that
+// count while holding the same lock, so the other order can block both for ever
+//@   ensures calls(lock) == 1 && callpos(wgDone, 0) < callpos(lock, 0)
 
 // newLazyDnsConn$1 — the dial goroutine (C07, C09): the dial result is published exactly once,
 // under mu, before dialFinished is closed; a connection dialled for a lazy connection that was
